@@ -55,7 +55,7 @@ CHECKS["C18"] = dict(engine="wire", level=("model_checking", "Wire.tla contains 
     technique="TLA+ byte-level wire-format spec (Wire.tla) checked by TLC + trace validation (TraceWire.tla) decoding the real encoders' bytes")
 
 CHECKS["C17"] = dict(engine="validate", level=("exploration", "Validate.tla defines the universe of structurally arbitrary requests; TLC enumerates it (48,690 requests) and exports every state; the harness materialises each as a real Request and pushes it through the tier1 and tier2 validation, graph construction, hashing, staging, resolution and planning code under recover(), a 2 s watchdog and a sampled heap ceiling; TraceValidate.tla judges each observed outcome against the outcome protocol (accepted, or rejected with invalid-argument; never crashed / hung). Model-derived robustness exploration, not a proof of totality.", "6/C17"),
-    note="error codes of errors produced inside Tier1Service.blocks() go through the real toConnectError (verif hook service/verif_hooks.go); the three early returns of Tier1Service.Blocks are reproduced by the driver (an ErrInvalidArg counts as invalid-argument)",
+    note="the step sequence of the driver (validation, graph, details, start block, plan) mirrors Tier1Service.Blocks; for every request without a start cursor that it rejects after the graph stage, the REAL in-process entry point (Tier1Service.TestBlocks = graph construction + blocks(), mapped by the real toConnectError through the verif hook) is called as well and judged; a difference between the two is reported as drift (0 in the current tree); the three early returns of Blocks are reproduced by the driver (an ErrInvalidArg counts as invalid-argument)",
     technique="TLA+ request-universe spec (Validate.tla) enumerated by TLC and replayed into the real request pipeline + trace validation (TraceValidate.tla)")
 HOOK_COMMITS.append("41c409bf")
 
